@@ -74,11 +74,14 @@ Fixpoint remove_nth {A} (n : nat) (l : list A) : list A :=
 Definition drop_entry {A} (n : nat) (l : list A) : list A :=
   match l with [] => [] | _ => remove_nth (n mod List.length l) l end.
 
-Definition f_stat (k : opk) (q : fs -> path -> bool) (p : path) : M fstate bool :=
+(* [lies = false]: the fault kind FLie is not part of the fault model (a lying stat call
+   acts as a raising one); the theorems that exclude lying existence checks are stated
+   about that instance *)
+Definition f_stat (lies : bool) (k : opk) (q : fs -> path -> bool) (p : path) : M fstate bool :=
   ft <- tick k p [] ;;
   match ft with
   | None => f <- get_fs ;; ret (q f p)
-  | Some FLie => ret false
+  | Some FLie => if lies then ret false else fail
   | Some _ => fail
   end.
 
@@ -145,10 +148,10 @@ Definition f_read_opt (p : path) : M fstate (option content) :=
   | Some _ => fail
   end.
 
-Definition faulty_prims : prims fstate := {|
-  p_exists := f_stat KExists exists_b;
-  p_isfile := f_stat KIsfile isfile_b;
-  p_isdir := f_stat KIsdir isdir_b;
+Definition faulty_prims (lies : bool) : prims fstate := {|
+  p_exists := f_stat lies KExists exists_b;
+  p_isfile := f_stat lies KIsfile isfile_b;
+  p_isdir := f_stat lies KIsdir isdir_b;
   p_info := f_info;
   p_ls := f_ls;
   p_find := f_find;
@@ -175,21 +178,25 @@ Fixpoint retry {St A} (K : nat) (m : M St A) : M St A :=
               end
     end.
 
-Definition faulty_wrappers (K : nat) : wrappers fstate := {|
-  w_rm := fun p => retry K (body_rm faulty_prims p);
-  w_mkdirs := fun p => retry K (body_mkdirs faulty_prims p);
-  w_write_partition := fun p c => retry K (body_write_partition faulty_prims p c);
-  w_read_parquet := fun t s o => retry K (body_read_parquet faulty_prims t s o);
-  w_write_concatted := fun o c => retry K (body_write_concatted faulty_prims o c);
-  w_move := fun p1 p2 => retry K (body_move faulty_prims p1 p2);
-  w_write_metadata := fun d ps => retry K (body_write_metadata faulty_prims d ps);
-  w_write_common := fun d ps => retry K (body_write_common faulty_prims d ps);
-  w_final_read := body_final_read faulty_prims;      (* not retried *)
+Definition faulty_wrappers (lies : bool) (K : nat) : wrappers fstate :=
+  let P := faulty_prims lies in {|
+  w_rm := fun p => retry K (body_rm P p);
+  w_mkdirs := fun p => retry K (body_mkdirs P p);
+  w_write_partition := fun p c => retry K (body_write_partition P p c);
+  w_read_parquet := fun t s o => retry K (body_read_parquet P t s o);
+  w_write_concatted := fun o c => retry K (body_write_concatted P o c);
+  w_move := fun p1 p2 => retry K (body_move P p1 p2);
+  w_write_metadata := fun d ps => retry K (body_write_metadata P d ps);
+  w_write_common := fun d ps => retry K (body_write_common P d ps);
+  w_final_read := body_final_read P;      (* not retried *)
 |}.
 
-Definition packF (K : nat) (sched : list (option fault)) (f : fs) (cfg : config) (asg : assignment)
-  : outcome fstate (list (list cell)) :=
-  pack_proc (faulty_wrappers K) cfg asg {| st_fs := f; st_sched := sched; st_trace := [] |}.
+Definition packF_gen (lies : bool) (K : nat) (sched : list (option fault)) (f : fs) (cfg : config)
+  (asg : assignment) : outcome fstate (list (list cell)) :=
+  pack_proc (faulty_wrappers lies K) cfg asg {| st_fs := f; st_sched := sched; st_trace := [] |}.
+
+(* the model the correspondence run evaluates: all six fault kinds *)
+Definition packF := packF_gen true.
 
 (* ------------------------------------------------------------------ harness glue *)
 #[export] Instance EqbC_opk : EqbC opk := fun a b => Nat.eqb (opk_code a) (opk_code b).
